@@ -106,6 +106,50 @@ def mixture(weights, xs, ps):
     return mean, cov
 
 
+def mixture_exact(weights, xs, ps):
+    """The same two moments in EXACT rational arithmetic (``fractions.Fraction`` of the given binary floats), rounded
+    to float once at the end: free of cancellation whatever the ratio |x|^2 / |P| is (orbital radii in km against
+    centimetre-level covariances)."""
+    from fractions import Fraction as Fr  # noqa: PLC0415
+
+    n, d = len(xs), len(xs[0])
+    w = [Fr(float(v)) for v in weights]
+    x = [[Fr(float(v)) for v in row] for row in xs]
+    mean = [sum(w[k] * x[k][i] for k in range(n)) for i in range(d)]
+    dev = [[x[k][i] - mean[i] for i in range(d)] for k in range(n)]
+    cov = [[sum(w[k] * (Fr(float(ps[k][i][j])) + dev[k][i] * dev[k][j]) for k in range(n)) for j in range(d)]
+           for i in range(d)]
+    return np.array([float(v) for v in mean]), np.array([[float(v) for v in row] for row in cov])
+
+
+def mixture_tolerance(weights, xs, ps, mean):
+    """Element-wise rounding allowance for a float64 evaluation of the CENTRED mixture formulae (any summation
+    order), from the data alone.
+
+    mean:  sum_k w_k x_k is n products and n additions of terms bounded by S_i = sum_k |w_k x_k,i|:
+           |error_i| <= (n + 1) u S_i, allowance 2 (n + 1) eps S_i (eps = 2 u: a factor 4).
+    cov:   every term w_k (P_k + d_k d_k') costs three roundings and the accumulation n more, all on magnitudes
+           bounded by B_ij = sum_k |w_k| (|P_k,ij| + |d_k,i d_k,j|): allowance 4 (n + 2) eps B_ij (factor ~8).  A mean
+           that is off by delta (<= (n + 1) u S) and weights that sum to 1 + O(n u) change the centred sum only in
+           second order, delta_i delta_j + (1 - sum w) (m_i delta_j + delta_i m_j): allowance 4 ((n + 1) eps)^2 S_i S_j
+           (1e-21 km^2 at GEO).  Nothing here grows like eps |x|^2 (1e-8 .. 4e-7 km^2), which is what a one-pass
+           E[xx'] - E[x]E[x]' evaluation loses.
+    Returns (tol_mean, tol_cov, B)."""
+    eps = float(np.finfo(float).eps)
+    w = np.abs(np.asarray(weights, dtype=float))
+    xs = np.asarray(xs, dtype=float)
+    n = len(w)
+    s = np.zeros(xs.shape[1])
+    b = np.zeros((xs.shape[1], xs.shape[1]))
+    for wk, x, p in zip(w, xs, ps):
+        s = s + wk * np.abs(x)
+        d = np.abs(x - np.asarray(mean, dtype=float))
+        b = b + wk * (np.abs(np.asarray(p, dtype=float)) + np.outer(d, d))
+    tol_mean = 2.0 * (n + 1) * eps * s
+    tol_cov = 4.0 * (n + 2) * eps * b + 4.0 * ((n + 1) * eps) ** 2 * np.outer(s, s)
+    return tol_mean, tol_cov, b
+
+
 def gate_bound(percentage, dof):
     """Upper bound of the one-sided chi-square interval with confidence ``percentage`` and ``dof`` degrees."""
     return float(chi2.isf(1.0 - percentage, dof))
